@@ -332,9 +332,10 @@ fn run_case(c: &Case) -> Result<(bool, bool, bool), Failure> {
 			settings = settings.loop_region(..);
 		}
 		let data = StreamingSoundData::from_decoder(dec).with_settings(settings);
+		let mark = streamctl::mark();
 		let (s, handle) = data.into_sound().map_err(|e| Failure::simple("into-sound", format!("{e:?}")))?;
 		let id = handle.verif_id();
-		streamctl::adopt(id);
+		streamctl::adopt(id, mark);
 		(s, H::Stream(handle, log, id))
 	} else {
 		let mut settings = StaticSoundSettings::new().start_time(start_time(c.start_time, &ids)).fade_in_tween(c.fade_in.map(|t| tween(t, &ids)));
